@@ -91,6 +91,8 @@ def summarise(r, seed, i):
         s["msg"] = str(e)[:500]
     if r.get("sample") is not None:
         s["sample"] = r["sample"]
+    if r.get("extra") is not None:
+        s["extra"] = r["extra"]
     return s
 
 
@@ -142,6 +144,14 @@ def run_check(prop, tier, base_seed, jobs=None, budget_s=None, runs=None, quiet=
                 harness_errors.append("worker failed: %r" % (e,))
     faulthandler.cancel_dump_traceback_later()
     results.sort(key=lambda r: r["i"])
+    # -- 2b. property-specific relation over the batch (e.g. cross-interpreter digests)
+    post_cov = {}
+    post_viol = []
+    if hasattr(P, "post") and not harness_errors:
+        try:
+            post_viol, post_cov = P.post(results, tier, base_seed, jobs)
+        except Exception as e:  # noqa
+            harness_errors.append("post step failed: %s" % traceback.format_exc()[-2000:])
     # -- 3. classify
     agg = {}
     kf_counts = {}
@@ -172,6 +182,7 @@ def run_check(prop, tier, base_seed, jobs=None, budget_s=None, runs=None, quiet=
             samples.append(r["sample"])
     if not samples:
         samples = [r["sample"] for r in results if r.get("sample") is not None][:2]
+    violations.extend(post_viol)
     # known findings hit by the search: only `open` ones are tolerated
     for k, n in sorted(kf_counts.items()):
         ent = kf_index.get(k)
@@ -208,7 +219,8 @@ def run_check(prop, tier, base_seed, jobs=None, budget_s=None, runs=None, quiet=
             "runs_per_hour": int(n_eval / wall * 3600) if wall > 0 else 0,
             "simulated_seconds": round(sim_s, 1),
             "api_calls": agg.get("api_calls", 0),
-            "fault_kinds_fired": dict((k[6:], v) for k, v in sorted(agg.items()) if k.startswith("fault_")),
+            "fault_kinds_fired": dict([(k[6:], v) for k, v in sorted(agg.items()) if k.startswith("fault_")] +
+                                      [(k[6:], v) for k, v in sorted(post_cov.items()) if k.startswith("fault_")]),
             "probes": dict((k[6:], v) for k, v in sorted(agg.items()) if k.startswith("probe_")),
             "distinct_abstract_states": len(states),
             "distinct_schedule_signatures": len(set(r.get("sig") for r in results if r.get("sig"))),
@@ -216,6 +228,7 @@ def run_check(prop, tier, base_seed, jobs=None, budget_s=None, runs=None, quiet=
             "known_findings_matched": kf_counts,
             "known_findings_stale": stale,
             "aborted_runs_foreign_cause": len([r for r in results if r["outcome"] == "abort"]),
+            "relation_coverage": post_cov,
             "real_components": REAL_COMPONENTS, "stub_components": STUB_COMPONENTS,
             "workers": jobs, "runs_requested": n_runs,
             "other": dict((k, v) for k, v in sorted(agg.items()) if not k.startswith(("fault_", "probe_", "api_calls"))),
